@@ -54,12 +54,48 @@ def run_verus_unit(repo, unit_name, variant, workdir, log, only_fns=None):
     unit = importlib.import_module("units." + unit_name)
     vname = unit_name + ("" if not variant else "[" + ",".join("%s=%s" % kv for kv in sorted(variant.items())) + "]")
     res = {"unit": vname, "engine": "verus", "status": "pass", "failures": [], "undecided": [], "backend": "z3 (via Verus)", "repo": repo}
-    try:
-        bu = V.build_unit(repo, unit, variant)
-    except Undecided as e:
-        res["status"] = "undecided"
-        res["undecided"].append("extraction: %s" % e)
-        return res
+    import re as _re0
+    import types as _types
+    helpers = []
+    for _round in range(4):
+        try:
+            u2 = unit
+            if helpers:
+                # helper functions called by a function under contract but not listed in the unit are extracted
+                # WITHOUT a contract (the caller then has to be provable from the helper's body-less signature alone,
+                # i.e. Verus verifies the helper's body for safety and the caller sees no postcondition)
+                u2 = _types.SimpleNamespace(**{k: getattr(unit, k) for k in dir(unit) if not k.startswith("__")})
+                items = list(unit.ITEMS)
+                for h in helpers:
+                    idx = next(i for i, it in enumerate(items) if it.get("kind") == "fn" and (it.get("label") or it.get("name")) == h["after"])
+                    base = items[idx]
+                    items.insert(idx + 1, dict(kind="fn", file=base["file"], impl=base.get("impl"), name=h["name"], label=h["name"],
+                                               auto_helper=True, math_inc=base.get("math_inc"), extra_rewrites=base.get("extra_rewrites", []),
+                                               impl_header_override=base.get("impl_header_override")))
+                u2.ITEMS = items
+            bu = V.build_unit(repo, u2, variant)
+        except Undecided as e:
+            res["status"] = "undecided"
+            res["undecided"].append("extraction: %s" % e)
+            return res
+        if _round == 3:
+            break
+        # quick type-check pass to discover missing helper methods
+        probe = V.run_verus(bu, os.path.join(workdir, "probe_" + unit_name), rlimit=1, extra_args=["--no-verify"], timeout=120)
+        missing = None
+        for d in probe["diags"]:
+            m = _re0.match(r"no method named `(\w+)` found for (?:struct|mutable reference|reference) `", d["msg"])
+            if d["level"] == "error" and m and d["line"]:
+                fnmap0, _lm0 = _fn_ranges(bu)
+                owner = fnmap0.get(d["line"])
+                if owner and not any(h["name"] == m.group(1) for h in helpers):
+                    missing = {"name": m.group(1), "after": owner}
+                    break
+        if not missing:
+            break
+        helpers.append(missing)
+        log("  %s: extracting helper `%s` (called from %s, not listed in the unit) without a contract" % (vname, missing["name"], missing["after"]))
+    res["auto_helpers"] = helpers
     text = bu.text()
     # assumption scan against the committed list
     scan = V.scan_assumptions(text)
